@@ -46,9 +46,31 @@ TABLE = {
     "C15": (MC, "2,4-C15",
             "explicit-state BFS over every shape x range operation x length x iterator kind with protocol-logging single-pass and bounds-checked multi-pass iterators, incl. injected iterator exceptions",
             "Every range-taking call (ctor/assign/insert at every position/append) for every length up to L and every iterator category from every shape: per-position dereference/increment counts, stale-copy use, past-the-end access; generator call count and order."),
+    "C07": (MC, "2,4-C07",
+            "explicit-state BFS over pairs of containers (W2): all shapes of both operands x allocator trait grid (8 POCCA/POCMA/POCS combinations, always-equal, std::allocator) x equal/unequal instances x capacity pairs; allocator instance ids observed after every copy/move construction, assignment and swap",
+            "Every binary operation from every pair of shapes in every trait/equality configuration; get_allocator() ids compared with what the traits prescribe, select_on_container_copy_construction made distinguishable, buffer ownership (block owner == get_allocator()) probed on every later state."),
+    "C09": (MC, "2,4-C09",
+            "explicit-state BFS over pairs of containers (W2); must-steal predicate from the statement evaluated on every move construction / move assignment / swap; data() identity and the element-event log on the transferred block",
+            "All (size,capacity,inline/heap) states of source and destination x capacity pairs x allocator trait/equality configurations x {move ctor, allocator-extended move ctor, move assign, cross-capacity assign(&&), swap}: if stealing is permitted data() must be the old buffer with zero element events on it and the source empty+inlined; stealing where forbidden is flagged too."),
+    "C12": (MC, "2,4-C12",
+            "exhaustive enumeration of the whole (size, capacity) space of narrow-size_type containers (W3) x every growing operation x counts and range lengths up to and beyond max_size(), against std::vector + a length_error oracle; ledger checks allocate(n) <= max_size(), red zones / ASan for overruns",
+            "8-bit size_type: all 8256 (size,capacity) states; counts/lengths: boundary set (quick) or every value 0..255 / 0..300 (thorough); 16/32/64-bit size_type with small allocator max_size(): complete; true 16-bit limit at boundary states; NDEBUG and assert-enabled builds."),
+    "C14": (MC, "2,4-C14",
+            "explicit-state BFS (W1) + exhaustive narrow-size_type space (W3, incl. saturation at max_size()): growth factor checked on every reallocating transition; plus prefix-closed long runs (2^22 appends) from a grid of start shapes counting allocations and relocations",
+            "Every reallocating edge of the bounded graphs satisfies cap' >= required and (cap' >= 1.5 cap or cap' == max_size()); long single-operation runs from 5178 start shapes check O(log n) allocations and O(n) relocations for N in {0,1,2,5,40}."),
+    "C16": (EX, "4-C16",
+            "exhaustive input enumeration: all pairs of contents over a 3-letter alphabet up to a length bound x capacity pairs x element types x every comparison operator, per standard/compiler; non-member accessors on every state of a W1/W2 graph",
+            "Complete tables (no sampling) compared with std::vector and checked for mutual consistency, under the six-operator (C++11/17) and three-way (C++20) operator sets; erase/erase_if over every content and every value/predicate."),
+    "C18": (MC, "3,4-C18",
+            "(a) complete static grid of noexcept/trait queries evaluated by the compiler against the README conditions; (b) explicit-state BFS with exception injection: a non-noexcept operation must deliver the injected exception (std::terminate in a forked worker = violation), a noexcept one must pass zero fault points",
+            "(a) 480 grid points x 15 queries x 3 (quick) or 8 (thorough) standard/compiler builds; (b) every fault point of every operation in W1 and W2 incl. caller iterators and generators."),
+    "C19": (EX, "3,4-C19",
+            "complete enumeration of the layout grid named by the property (element size x alignment x allocator state x size_type), sizeof/alignof evaluated by the compiler, oracle computed independently",
+            "No executions exist for this property; the finite configuration grid is enumerated completely (1904 points quick, 3976 thorough) and every point compared with an independent oracle."),
 }
 
 ENGINE_OF = {p: "svmc" for p in TABLE}
+ENGINE_OF.update({"C16": "tables+svmc", "C19": "grid", "C18": "grid+svmc"})
 
 
 def main():
@@ -84,8 +106,12 @@ def main():
             "add_only": True,
         },
         "engines": [
-            {"name": "svmc", "path": "engine/", "serves_properties": sorted(p for p in TABLE if ENGINE_OF.get(p) == "svmc"),
+            {"name": "svmc", "path": "engine/", "serves_properties": sorted(p for p in TABLE if "svmc" in ENGINE_OF.get(p, "")),
              "kind_free_text": "hand-written explicit-state model checker; the real gch::small_vector is the transition function, std::vector + ledger the reference model; deviation-bounded exception injection; forked, crash-supervised workers"},
+            {"name": "grid", "path": "tools/grids.py", "serves_properties": ["C18", "C19"],
+             "kind_free_text": "generated translation units (<= 96 heavy instantiations each) that print complete static grids; independent oracle in Python"},
+            {"name": "tables", "path": "engine/cmp_main.cpp", "serves_properties": ["C16"],
+             "kind_free_text": "exhaustive comparison / erase tables against std::vector"},
         ],
         "checks": checks,
         "not_applicable": na,
